@@ -290,8 +290,10 @@ func IsBranchDispatchPattern(re *syntax.Regexp) bool {
 		return false
 	}
 
-	// Must be concatenation starting with ^ anchor
-	if re.Op != syntax.OpConcat || len(re.Sub) < 2 {
+	// Must be exactly ^ followed by the alternation. The dispatcher matches
+	// only the alternation itself, so anything before it (^.*(a|b)) or after
+	// it (^(a|b)x, ^(a|b)$) would be silently ignored.
+	if re.Op != syntax.OpConcat || len(re.Sub) != 2 {
 		return false
 	}
 
